@@ -327,6 +327,17 @@ class Engine:
               return (ast.literal_eval(n.value),)
             except Exception:
               return (self._eval_module_expr(ctx, relpath, n.value),)
+      if isinstance(n, ast.ImportFrom) and n.module and n.module.startswith('fedjax'):
+        # `from fedjax.core import tree_util` / `from fedjax.core.typing import Params`
+        import os
+        for al in n.names:
+          if (al.asname or al.name) == name:
+            base = n.module.replace('.', '/')
+            as_module = f'{base}/{al.name}.py'
+            if os.path.exists(os.path.join(extract.REPO, as_module)):
+              return (SrcModule(as_module),)
+            if os.path.exists(os.path.join(extract.REPO, base + '.py')):
+              return self._resolve_in(ctx, base + '.py', al.name)
     return None
 
   def _eval_module_expr(self, ctx, relpath, node):
